@@ -339,10 +339,11 @@ func runC15(r *mc.Run) {
 	r.Assumptions = []string{"block times strictly increase (CometBFT rule); equal timestamps are explored as several requests in one block"}
 	completed := depth
 	for _, c := range c15Configs(r.Thorough()) {
-		e := &engb.Explorer{Run: r, NewRoot: c.newRoot, Menu: c15Menu(c, r.Thorough()), Monitor: c15Monitor(r, c), Depth: depth, WantMid: true, ExtraKey: c15Key}
+		e := &engb.Explorer{Run: r, NewRoot: c.newRoot, Menu: c15Menu(c, r.Thorough()), Monitor: c15Monitor(r, c), Depth: depth, ConformanceDepth: 2, WantMid: true, ExtraKey: c15Key}
 		if err := e.Explore(); err != nil {
 			panic(err)
 		}
+		runConformance(r, c, e)
 		if e.Completed < completed {
 			completed = e.Completed
 		}
